@@ -109,11 +109,13 @@ func (f *Font) MakeGlyphNames() []string {
 	}
 
 	if f.Gsub != nil {
+		// Coverage tables are visited in order of increasing glyph ID, so that
+		// the result does not depend on the map iteration order.
 		for _, lookup := range f.Gsub.LookupList {
 			for _, subtable := range lookup.Subtables {
 				switch subtable := subtable.(type) {
 				case *gtab.Gsub1_1:
-					for origGid := range subtable.Cov {
+					for _, origGid := range subtable.Cov.Glyphs() {
 						newGid := origGid + subtable.Delta
 						if glyphNames[origGid] == "" || glyphNames[newGid] != "" {
 							continue
@@ -121,7 +123,8 @@ func (f *Font) MakeGlyphNames() []string {
 						glyphNames[newGid] = makeVariant(used, glyphNames[origGid])
 					}
 				case *gtab.Gsub1_2:
-					for origGid, idx := range subtable.Cov {
+					for _, origGid := range subtable.Cov.Glyphs() {
+						idx := subtable.Cov[origGid]
 						newGid := subtable.SubstituteGlyphIDs[idx]
 						if glyphNames[origGid] == "" || glyphNames[newGid] != "" {
 							continue
@@ -129,7 +132,8 @@ func (f *Font) MakeGlyphNames() []string {
 						glyphNames[newGid] = makeVariant(used, glyphNames[origGid])
 					}
 				case *gtab.Gsub3_1:
-					for origGid, idx := range subtable.Cov {
+					for _, origGid := range subtable.Cov.Glyphs() {
+						idx := subtable.Cov[origGid]
 						if glyphNames[origGid] == "" {
 							continue
 						}
@@ -141,7 +145,8 @@ func (f *Font) MakeGlyphNames() []string {
 					}
 				case *gtab.Gsub4_1:
 					var nn []string
-					for origGid, idx := range subtable.Cov {
+					for _, origGid := range subtable.Cov.Glyphs() {
+						idx := subtable.Cov[origGid]
 						name := glyphNames[origGid]
 						if name == "" {
 							continue
